@@ -126,7 +126,7 @@ def rand_frame(rng, zero_origin=False):
     return ps, o, d
 
 STYLES = ["random", "random", "random", "single", "ring", "full", "two", "interior"]
-GRID_OPS = ["from_mask", "dg_all_false", "dg_unmasked", "dg_edge", "dg_border", "blurring", "padded", "over", "sub_grid",
+GRID_OPS = ["from_mask", "dg_all_false", "dg_unmasked", "dg_edge", "dg_border", "blurring", "padded", "trimmed_array", "over", "sub_grid",
             "resized", "centre", "extent", "zoom_unmasked", "zoomed_around", "zoom_props", "radial", "overlay",
             "pixel_coords", "pixel_grids", "scaled_of_pixels", "rect_mapper",
             "ds_apply_mask", "ds_noise_scaling", "ds_over_sampling", "ds_trimmed", "ds_simulate", "ds_s2n"]
@@ -237,6 +237,24 @@ def op_padded(aa, m, ps, o, dd, prm):
     return {"coq": [kgrid(f"(GPadded {cz(prm['k'][0])} {cz(prm['k'][1])})", m, ps, o, g),
                     f"(KGeom (MPadded {cz(prm['k'][0])} {cz(prm['k'][1])}) {cM(m, ps, o)} (Some {cgeom(ge)}))"],
             "rel": [("grid", g), ("geom", ge)], "show": jg(g[:4])}
+
+def op_trimmed_array(aa, m, ps, o, dd, prm):
+    """Mask2D.trimmed_array_from / unmasked_blurred_array_from on the padded frame of the mask"""
+    mask = mk_mask(aa, m, ps, o)
+    H, W = len(m), len(m[0])
+    pm = aa.Grid2D.from_mask(mask=mask).padded_grid_from(kernel_shape_native=prm["k"]).mask
+    PH, PW = int(pm.shape_native[0]), int(pm.shape_native[1])
+    arr = aa.Array2D(values=np.arange(float(PH * PW)).reshape(PH, PW), mask=pm)
+    ish = prm["image_shape"] or (H, W)
+    tr = pm.trimmed_array_from(padded_array=arr, image_shape=ish)
+    ge = geom_of(tr.mask)
+    rel = [("geom", ge), ("inv", [float(v) for v in np.array(tr.native).ravel()]), ("grid", grid_out(tr.mask.derive_grid.unmasked))]
+    if ps[0] == ps[1]:
+        psf = aa.Kernel2D.no_mask(values=np.ones(prm["k"]), pixel_scales=fl(ps[0]))
+        ub = pm.unmasked_blurred_array_from(padded_array=arr, psf=psf, image_shape=ish)
+        rel += [("geom", geom_of(ub.mask)), ("inv", [float(v) for v in np.array(ub.native).ravel()])]
+    pml = [[False] * PW for _ in range(PH)]
+    return {"coq": [f"(KGeom (MTrimmedArray {cz(ish[0])} {cz(ish[1])}) {cM(pml, ps, o)} (Some {cgeom(ge)}))"], "rel": rel, "show": str(ge)}
 
 def op_over(entry):
     def f(aa, m, ps, o, dd, prm):
@@ -456,7 +474,7 @@ OPS = {
     "dg_all_false": op_simple(lambda p: "GAllFalse", lambda aa, mask, p: mask.derive_grid.all_false),
     "dg_unmasked": op_simple(lambda p: "GFromMask", lambda aa, mask, p: mask.derive_grid.unmasked),
     "dg_edge": op_sel("edge"), "dg_border": op_sel("border"),
-    "blurring": op_blurring, "padded": op_padded, "over": op_over("over"), "sub_grid": op_over("sub_grid"), "resized": op_resized,
+    "blurring": op_blurring, "padded": op_padded, "trimmed_array": op_trimmed_array, "over": op_over("over"), "sub_grid": op_over("sub_grid"), "resized": op_resized,
     "centre": op_centre, "extent": op_extent, "zoom_unmasked": op_zoom_unmasked, "zoomed_around": op_zoomed_around,
     "zoom_props": op_zoom_props, "radial": op_radial, "overlay": op_overlay, "pixel_coords": op_pixel_coords,
     "pixel_grids": op_pixel_grids, "scaled_of_pixels": op_scaled_of_pixels, "rect_mapper": op_rect_mapper,
@@ -477,6 +495,8 @@ def nun_of(m): return sum(1 for r in m for b in r if not b)
 PARAMS = {
     "blurring": lambda rng, m, ps: {"k": (3, 3) if rng.random() < 0.6 else (odd(rng, 3), odd(rng, 3))},
     "padded": lambda rng, m, ps: {"k": (odd(rng, 7), odd(rng, 7))},
+    "trimmed_array": lambda rng, m, ps: {"k": (odd(rng, 7), odd(rng, 7)),
+                                         "image_shape": None if rng.random() < 0.7 else (rng.randint(1, len(m)), rng.randint(1, len(m[0])))},
     "over": lambda rng, m, ps: (lambda u: {"uniform": u, "subs": [rng.choice([1, 2, 4])] * nun_of(m) if u else [rng.choice([1, 2, 4]) for _ in range(nun_of(m))]})(rng.random() < 0.4),
     "sub_grid": lambda rng, m, ps: (lambda u: {"uniform": u, "subs": [rng.choice([1, 2, 4])] * nun_of(m) if u else [rng.choice([1, 2, 4]) for _ in range(nun_of(m))]})(rng.random() < 0.4),
     "resized": lambda rng, m, ps: {"shape": (rng.randint(1, 9), rng.randint(1, 9))},
